@@ -149,7 +149,7 @@ def render(i, s):
         mac, dd, u = (".CO_YIELD", "d", use[j]) if y == "C" else (".LR_CO_YIELD", "ld", use[j])
         if u == "n":
             if (i + j) % 3 == 1:   # an lvalue into a temporary of the same full expression: the value must be copied while that lives
-                body.append("%s(std::max(yv(%s, %d), -2000000000))" % (mac, dd, j))
+                body.append("%s(TempBox(yv(%s, %d)).ref())" % (mac, dd, j))
             else:
                 body.append("%s(yv(%s, %d))" % (mac, dd, j))
         elif u == "p":
